@@ -298,3 +298,8 @@ def run(ctx, rep):
     # the invariant the map_label slice triage relies on (offsets belong to the current text), re-verified here
     from rules.c11 import rule_cache
     rule_cache(ctx, rep, rid="R-C12-cache")
+
+
+def thorough_extra(ctx, rep):
+    from rules.c04 import clippy_cross_reference
+    clippy_cross_reference(ctx, rep, entry_bodies(ctx, rep, [LSP + "::run", "ironplcc::lsp::start_with_connection", "ironplcc::lsp::start"]))
